@@ -44,9 +44,21 @@ package enterprise
 //@   requires forall i int :: {ent_store[kPO(i)]} {ent_store[kRaised(i)]} {ent_store[kAccepted(i)]} !poHas(ent_store, i) && !raisedHas(ent_store, i) && !acceptedHas(ent_store, i)
 //@   requires forall i int, j int :: {data.PurchaseOrders[i], data.PurchaseOrders[j]} 0 <= i && i < j && j < len(data.PurchaseOrders) ==> data.PurchaseOrders[i].Id != data.PurchaseOrders[j].Id
 //@   requires forall j int :: {data.PurchaseOrders[j]} 0 <= j && j < len(data.PurchaseOrders) ==> data.PurchaseOrders[j].Id < data.StartingPurchaseOrderId
-//@   requires forall j int :: {data.LockedUnd[j]} 0 <= j && j < len(data.LockedUnd) ==> !isnil(data.LockedUnd[j].Amount.Amount)
+//@   requires forall a `BytesV` :: {ent_store[kLocked(a)]} {ent_store[kSpent(a)]} !lockedHas(ent_store, a) && !spentHas(ent_store, a)
+//@   requires !entParamsSet(ent_store) && validDenom(data.Params.Denom)
+//@   requires forall a `BytesV` :: {ent_store[kWhitelist(a)]} !wlHas(ent_store, a)
+//@   requires !isnil(data.TotalLocked.Amount) && 0 <= Amt(data.TotalLocked) && Amt(data.TotalLocked) < P255 && data.TotalLocked.Denom == data.Params.Denom
+//@   requires !isnil(data.TotalSpent.Amount) && 0 <= Amt(data.TotalSpent) && Amt(data.TotalSpent) < P255 && data.TotalSpent.Denom == data.Params.Denom
+//@   requires forall j int :: {data.LockedUnd[j]} 0 <= j && j < len(data.LockedUnd) ==> !isnil(data.LockedUnd[j].Amount.Amount) && 0 <= Amt(data.LockedUnd[j].Amount) && Amt(data.LockedUnd[j].Amount) < P255 && data.LockedUnd[j].Amount.Denom == data.Params.Denom
+//@   requires forall j int :: {data.SpentEfund[j]} 0 <= j && j < len(data.SpentEfund) ==> !isnil(data.SpentEfund[j].Amount.Amount) && 0 <= Amt(data.SpentEfund[j].Amount) && Amt(data.SpentEfund[j].Amount) < P255 && data.SpentEfund[j].Amount.Denom == data.Params.Denom
+//@   requires forall i int, j int :: {data.LockedUnd[i], data.LockedUnd[j]} 0 <= i && i < j && j < len(data.LockedUnd) && validBech32(data.LockedUnd[i].Owner) && validBech32(data.LockedUnd[j].Owner) ==> bytesval(addrOf(data.LockedUnd[i].Owner)) != bytesval(addrOf(data.LockedUnd[j].Owner))
+//@   requires forall i int, j int :: {data.SpentEfund[i], data.SpentEfund[j]} 0 <= i && i < j && j < len(data.SpentEfund) && validBech32(data.SpentEfund[i].Owner) && validBech32(data.SpentEfund[j].Owner) ==> bytesval(addrOf(data.SpentEfund[i].Owner)) != bytesval(addrOf(data.SpentEfund[j].Owner))
+//@   requires Amt(data.TotalLocked) == docLockSum(arr(data.LockedUnd), len(data.LockedUnd)) && Amt(data.TotalSpent) == docSpentSum(arr(data.SpentEfund), len(data.SpentEfund))
 //@   let s0 := old(ent_store)
 //@   let pos := data.PurchaseOrders
+//@   let lus := data.LockedUnd
+//@   let sps := data.SpentEfund
+//@   let esc := bytesval(modAddr("enterprise"))
 //@   modifies ent_store, bank_bal
 //@   ensures @orders_imported forall j int :: {pos[j]} 0 <= j && j < len(pos) ==> poHas(ent_store, pos[j].Id) && ent_store[kPO(pos[j].Id)] == poBytes(pos[j])
 //@   ensures @orders_read_back_as_given derived forall j int :: {pos[j]} 0 <= j && j < len(pos) ==> poGet(ent_store, pos[j].Id) == pos[j]
@@ -54,21 +66,43 @@ package enterprise
 //@   ensures @statuses_valid forall j int :: {pos[j]} 0 <= j && j < len(pos) ==> 1 <= pos[j].Status && pos[j].Status <= 4
 //@   ensures @nothing_else forall i int :: {ent_store[kPO(i)]} {ent_store[kRaised(i)]} {ent_store[kAccepted(i)]} poHas(ent_store, i) || raisedHas(ent_store, i) || acceptedHas(ent_store, i) ==> exists j int :: 0 <= j && j < len(pos) && pos[j].Id == i
 //@   ensures @next_id entHighestIs(ent_store, data.StartingPurchaseOrderId)
+//@   ensures @whitelist_imported forall j int :: {data.Whitelist[j]} 0 <= j && j < len(data.Whitelist) ==> validBech32(data.Whitelist[j]) && wlHas(ent_store, bytesval(addrOf(data.Whitelist[j])))
+//@   ensures @no_other_whitelisted forall a `BytesV` :: {ent_store[kWhitelist(a)]} wlHas(ent_store, a) ==> exists j int :: 0 <= j && j < len(data.Whitelist) && validBech32(data.Whitelist[j]) && bytesval(addrOf(data.Whitelist[j])) == a
+//@   ensures @params_stored entParamsSet(ent_store) ==> entParams(ent_store) == data.Params
+//@   ensures @totals_stored totalLockedAmt(ent_store) == Amt(data.TotalLocked) && totalSpentAmt(ent_store) == Amt(data.TotalSpent) && ent_store[kTotalLocked] == coinBytes(data.TotalLocked) && ent_store[kTotalSpent] == coinBytes(data.TotalSpent)
+//@   ensures @locked_imported forall j int :: {lus[j]} 0 <= j && j < len(lus) ==> validBech32(lus[j].Owner) && ent_store[kLocked(bytesval(addrOf(lus[j].Owner)))] == lockedBytes(mkLocked(lus[j].Owner, lus[j].Amount))
+//@   ensures @no_other_locked forall a `BytesV` :: {ent_store[kLocked(a)]} lockedHas(ent_store, a) ==> exists j int :: 0 <= j && j < len(lus) && validBech32(lus[j].Owner) && bytesval(addrOf(lus[j].Owner)) == a
+//@   ensures @spent_imported forall j int :: {sps[j]} 0 <= j && j < len(sps) ==> validBech32(sps[j].Owner) && ent_store[kSpent(bytesval(addrOf(sps[j].Owner)))] == spentBytes(sps[j])
+//@   ensures @no_other_spent forall a `BytesV` :: {ent_store[kSpent(a)]} spentHas(ent_store, a) ==> exists j int :: 0 <= j && j < len(sps) && validBech32(sps[j].Owner) && bytesval(addrOf(sps[j].Owner)) == a
+//@   ensures @book_sums lockSum(ent_store) == docLockSum(arr(lus), len(lus)) && spentSum(ent_store) == docSpentSum(arr(sps), len(sps))
+//@   ensures @escrow_holds_total_locked balOf(bank_bal, esc, data.Params.Denom) == Amt(data.TotalLocked)
+//@   ensures @books_wellformed derived entParamsSet(ent_store) ==> ENT_BOOKS_WF(ent_store)
+//@   ensures @books_balance derived entParamsSet(ent_store) ==> ENT_LEDGER(ent_store, bank_bal, esc)
 //@   ensures @inv_queues derived ENT_Q(ent_store)
 //@   ensures @inv_fresh derived ENT_FRESH(ent_store)
-//@   loop 0: invariant 0 - 1 <= rangeindex && entHighestIs(ent_store, data.StartingPurchaseOrderId)
-//@   loop 0: invariant forall k `enterprise.Key` :: {ent_store[k]} isPOKey(k) || isRaisedKey(k) || isAcceptedKey(k) ==> ent_store[k] == s0[k]
-//@   loop 1: invariant 0 - 1 <= rangeindex && rangeindex < len(pos) && entHighestIs(ent_store, data.StartingPurchaseOrderId)
+//@   loop 0: invariant 0 - 1 <= rangeindex && lockSum(ent_store) == lockSum(s0) && spentSum(ent_store) == spentSum(s0)
+//@   loop 0: invariant forall k `enterprise.Key` :: {ent_store[k]} !isWhitelistKey(k) ==> ent_store[k] == at_loop_entry(ent_store)[k]
+//@   loop 0: invariant rangeindex < len(data.Whitelist) && forall j int :: {data.Whitelist[j]} 0 <= j && j <= rangeindex ==> validBech32(data.Whitelist[j]) && wlHas(ent_store, bytesval(addrOf(data.Whitelist[j])))
+//@   loop 0: invariant forall a `BytesV` :: {ent_store[kWhitelist(a)]} wlHas(ent_store, a) ==> exists j int :: 0 <= j && j <= rangeindex && validBech32(data.Whitelist[j]) && bytesval(addrOf(data.Whitelist[j])) == a
+//@   loop 1: invariant 0 - 1 <= rangeindex && rangeindex < len(pos) && lockSum(ent_store) == lockSum(s0) && spentSum(ent_store) == spentSum(s0)
+//@   loop 1: invariant forall k `enterprise.Key` :: {ent_store[k]} !isPOKey(k) && !isRaisedKey(k) && !isAcceptedKey(k) ==> ent_store[k] == at_loop_entry(ent_store)[k]
 //@   loop 1: invariant forall j int :: {pos[j]} 0 <= j && j <= rangeindex ==> poHas(ent_store, pos[j].Id) && 1 <= pos[j].Status && pos[j].Status <= 4
 //@   loop 1: invariant forall j int :: {pos[j]} 0 <= j && j <= rangeindex ==> ent_store[kPO(pos[j].Id)] == poBytes(pos[j])
 //@   loop 1: invariant forall j int :: {pos[j]} 0 <= j && j <= rangeindex ==> raisedHas(ent_store, pos[j].Id) == (pos[j].Status == 1) && acceptedHas(ent_store, pos[j].Id) == (pos[j].Status == 2) && (raisedHas(ent_store, pos[j].Id) ==> qval(ent_store[kRaised(pos[j].Id)], pos[j].Id)) && (acceptedHas(ent_store, pos[j].Id) ==> qval(ent_store[kAccepted(pos[j].Id)], pos[j].Id))
 //@   loop 1: invariant forall i int :: {ent_store[kPO(i)]} {ent_store[kRaised(i)]} {ent_store[kAccepted(i)]} poHas(ent_store, i) || raisedHas(ent_store, i) || acceptedHas(ent_store, i) ==> exists j int :: 0 <= j && j <= rangeindex && pos[j].Id == i
-//@   loop 2: invariant 0 - 1 <= rangeindex && forall k `enterprise.Key` :: {ent_store[k]} isPOKey(k) || isRaisedKey(k) || isAcceptedKey(k) || k == kEHighest ==> ent_store[k] == at_loop_entry(ent_store)[k]
-//@   loop 3: invariant 0 - 1 <= rangeindex && forall k `enterprise.Key` :: {ent_store[k]} isPOKey(k) || isRaisedKey(k) || isAcceptedKey(k) || k == kEHighest ==> ent_store[k] == at_loop_entry(ent_store)[k]
+//@   loop 2: invariant 0 - 1 <= rangeindex && rangeindex < len(lus) && forall k `enterprise.Key` :: {ent_store[k]} !isLockedKey(k) ==> ent_store[k] == at_loop_entry(ent_store)[k]
+//@   loop 2: invariant forall j int :: {lus[j]} 0 <= j && j <= rangeindex ==> validBech32(lus[j].Owner) && ent_store[kLocked(bytesval(addrOf(lus[j].Owner)))] == lockedBytes(mkLocked(lus[j].Owner, lus[j].Amount))
+//@   loop 2: invariant forall a `BytesV` :: {ent_store[kLocked(a)]} lockedHas(ent_store, a) ==> exists j int :: 0 <= j && j <= rangeindex && validBech32(lus[j].Owner) && bytesval(addrOf(lus[j].Owner)) == a
+//@   loop 2: invariant lockSum(ent_store) == docLockSum(arr(lus), rangeindex + 1) && spentSum(ent_store) == spentSum(s0)
+//@   loop 3: invariant 0 - 1 <= rangeindex && rangeindex < len(sps) && forall k `enterprise.Key` :: {ent_store[k]} !isSpentKey(k) ==> ent_store[k] == at_loop_entry(ent_store)[k]
+//@   loop 3: invariant forall j int :: {sps[j]} 0 <= j && j <= rangeindex ==> validBech32(sps[j].Owner) && ent_store[kSpent(bytesval(addrOf(sps[j].Owner)))] == spentBytes(sps[j])
+//@   loop 3: invariant forall a `BytesV` :: {ent_store[kSpent(a)]} spentHas(ent_store, a) ==> exists j int :: 0 <= j && j <= rangeindex && validBech32(sps[j].Owner) && bytesval(addrOf(sps[j].Owner)) == a
+//@   loop 3: invariant spentSum(ent_store) == docSpentSum(arr(sps), rangeindex + 1) && lockSum(ent_store) == docLockSum(arr(lus), len(lus))
 
 //@ func (github.com/unification-com/mainchain/x/enterprise/keeper.Keeper).GetEnterpriseAccount(ctx) (r)
 //@   trusted returns the module account object from the account keeper; reads no enterprise state
 //@   pure
+//@   ensures r != nil ==> bytesval(acctAddr(r)) == bytesval(modAddr("enterprise"))
 
 // Genesis export (C15), the purchase-order part: the document lists every stored order exactly once, in ascending id
 // order, with every field as stored; the starting id and the parameters are the stored ones.  Importing such a
@@ -83,4 +117,10 @@ package enterprise
 //@   ensures @orders_as_stored forall j int :: {gs.PurchaseOrders[j]} 0 <= j && j < len(gs.PurchaseOrders) ==> poHas(ent_store, gs.PurchaseOrders[j].Id) && gs.PurchaseOrders[j] == poGet(ent_store, gs.PurchaseOrders[j].Id)
 //@   ensures @all_orders forall x uint64 :: {ent_store[kPO(x)]} poHas(ent_store, x) ==> exists j int :: 0 <= j && j < len(gs.PurchaseOrders) && gs.PurchaseOrders[j].Id == x
 //@   ensures @next_id entHighestSet(ent_store) ==> entHighestIs(ent_store, gs.StartingPurchaseOrderId)
+//@   ensures @locked_book_as_stored forall j int :: {gs.LockedUnd[j]} 0 <= j && j < len(gs.LockedUnd) ==> lockedHas(ent_store, bytesval(addrOf(gs.LockedUnd[j].Owner))) && gs.LockedUnd[j] == lockedRec(ent_store, bytesval(addrOf(gs.LockedUnd[j].Owner)))
+//@   ensures @whole_locked_book forall a `BytesV` :: {ent_store[kLocked(a)]} lockedHas(ent_store, a) ==> exists j int :: 0 <= j && j < len(gs.LockedUnd) && bytesval(addrOf(gs.LockedUnd[j].Owner)) == a
+//@   ensures @locked_book_without_duplicates forall i int, j int :: {gs.LockedUnd[i], gs.LockedUnd[j]} 0 <= i && i < j && j < len(gs.LockedUnd) ==> bytesval(addrOf(gs.LockedUnd[i].Owner)) != bytesval(addrOf(gs.LockedUnd[j].Owner))
+//@   ensures @spent_book_as_stored forall j int :: {gs.SpentEfund[j]} 0 <= j && j < len(gs.SpentEfund) ==> spentHas(ent_store, bytesval(addrOf(gs.SpentEfund[j].Owner))) && gs.SpentEfund[j] == spentRec(ent_store, bytesval(addrOf(gs.SpentEfund[j].Owner)))
+//@   ensures @whole_spent_book forall a `BytesV` :: {ent_store[kSpent(a)]} spentHas(ent_store, a) ==> exists j int :: 0 <= j && j < len(gs.SpentEfund) && bytesval(addrOf(gs.SpentEfund[j].Owner)) == a
+//@   ensures @spent_book_without_duplicates forall i int, j int :: {gs.SpentEfund[i], gs.SpentEfund[j]} 0 <= i && i < j && j < len(gs.SpentEfund) ==> bytesval(addrOf(gs.SpentEfund[i].Owner)) != bytesval(addrOf(gs.SpentEfund[j].Owner))
 //@   ensures @params_and_totals gs.Params == entParams(ent_store) && Amt(gs.TotalLocked) == totalLockedAmt(ent_store) && Amt(gs.TotalSpent) == totalSpentAmt(ent_store)
